@@ -117,15 +117,29 @@ def all_orders():
                 continue  # = asc
             out.append("blk" + "".join(map(str, perm)) + "r" + "".join(map(str, mask)))
     out += ["riffle", "riffle-rev"]
+    # label-dependent orders: each class ranked among itself, the interleaving of the classes is not
+    out += ["t-then-d", "d-then-t", "t-d-runs"]
     return out
 
 
 QUICK_ORDERS = ["desc", "asc", "blk012r100", "blk021r000", "blk102r011", "blk120r000", "blk120r101", "blk201r010",
-                "blk210r000", "blk210r110", "blk021r111", "riffle"]
+                "blk210r000", "blk210r110", "blk021r111", "riffle", "t-then-d", "d-then-t", "t-d-runs"]
 
 
-def order_index(name, n):
+def order_index(name, n, lab=None):
+    """Permutation of the descending-score order 0..n-1 (`lab`: the labels in that order, for the label-dependent ones)."""
     idx = np.arange(n)
+    if name in ("t-then-d", "d-then-t", "t-d-runs"):
+        lab = np.asarray(lab, dtype=bool)
+        t, d = idx[lab], idx[~lab]
+        if name == "t-then-d":
+            return np.r_[t, d]
+        if name == "d-then-t":
+            return np.r_[d, t]
+        parts, k = [], 7  # alternating ranked runs of 7 targets / 7 decoys
+        for a in range(0, max(len(t), len(d)), k):
+            parts += [t[a:a + k], d[a:a + k]]
+        return np.concatenate(parts)
     if name == "desc":
         return idx
     if name == "asc":
@@ -230,7 +244,7 @@ def check_case(case, acc, base=None, data=None):
             for suffix, msg in bad:
                 viol(suffix, msg, observed=None if v is None else v[:12])
             return (base if not any(x[0] == "wrong-shape" for x in bad) else None), ("bad" if bad else "ok")
-    pi = order_index(oname, len(s))
+    pi = order_index(oname, len(s), lab)
     sp, lp = s[pi].copy(), lab[pi].copy()
     try:
         out = call(alg, sp, lp)
@@ -299,7 +313,7 @@ def worker(item):
 # ---------------------------------------------------------------------------------------------
 def conf_table(pi0, sep, nt, nd, rnd, order):
     s, lab = score_set(pi0, sep, nt, nd, rnd)
-    pi = order_index(order, len(s))
+    pi = order_index(order, len(s), lab)
     # six decimals: the scores survive the text round trip of the intermediate files bit-exactly (measured: a
     # one-ulp change of the scores moves qvality PEPs by up to 1e-7, which would blur the comparison below)
     s, lab = np.round(s[pi], 6) + 0.0, lab[pi]
@@ -451,7 +465,7 @@ def run(ctx):
             for sep in SEP:
                 s0, _ = score_set(pi0, sep, nt, nd, 0.0)
                 assert len(np.unique(s0)) == len(s0), ("un-rounded score set has ties", pi0, sep, nt, nd)
-                assert len({tuple(order_index(o, len(s0))) for o in all_orders()}) == len(all_orders())
+                assert len({tuple(order_index(o, len(s0), _)) for o in all_orders()}) == len(all_orders())
     items = []
     sets = [(pi0, sep, nt, nd, rnd) for (nt, nd) in SIZES[::-1] for pi0 in PI0 for sep in SEP for rnd in ROUND]
     # second mixture shape: a low-scoring target group (pi0 < 0 encodes its fraction)
